@@ -11,8 +11,10 @@ from native.harness import wsgi_environ, asgi_scope
 def encode(parts, boundary, preamble=b"", epilogue=b"", nl=b"\r\n"):
     """parts: list of (name, filename or None, content_type or None, content bytes)"""
     out = [preamble]
-    for name, filename, ctype, content in parts:
-        out.append((nl if out[-1] else b"") + b"--" + boundary + nl)
+    for k, (name, filename, ctype, content) in enumerate(parts):
+        # every delimiter is  line-break "--" boundary;  only the very first one may omit the line break, when there is
+        # no preamble (an EMPTY part content still gets its own line break before the next delimiter)
+        out.append((nl if (k > 0 or preamble) else b"") + b"--" + boundary + nl)
         disp = b'Content-Disposition: form-data; name="' + name.encode() + b'"'
         if filename is not None:
             disp += b'; filename="' + filename.encode() + b'"'
@@ -203,7 +205,7 @@ def bounded(tier, seed):
                     parts.insert(0, ("a", None, None, b"text"))
                 for pre, epi in ((b"", b""), (b"pre", b"epi\r\n")) if rng.random() < 0.2 else ((b"", b""),):
                     body = encode(parts, boundary, pre, epi)
-                    chs = chunkings(body, 2 if tier == "quick" else 3, rng, 40 if tier == "quick" else 400)
+                    chs = chunkings(body, 2 if tier == "quick" else 3, rng, 40 if tier == "quick" else 200)
                     for i, chunks in enumerate(chs):
                         evals += 1
                         deep = i < 3 or rng.random() < 0.05
